@@ -1,5 +1,5 @@
 # replay of a bounded stand-in violation (C11): re-run native/c11_compilers.py
 import sys
-print("gaussian_merge n=4 gates=[('S2gate', (3, 1)), ('S2gate', (1, 3)), ('S2gate', (1, 0)), ('CKgate', (0, 1)), ('Sgate', (2,)), ('Dgate', (3,)), ('Kgate', (0,)), ('Dgate', (2,)), ('Sgate', (3,))]: with the opaque gates interpreted as fixed unitaries the compiled program [('GaussianTransform', [2]), ('GaussianTransform', [0, 1, 3]), ('Dgate', [2]), ('Dgate', [3]), ('CKgate', [0, 1]), ('Kgate', [0]), ('MeasureFock', [0, 1, 2, 3])] computes something else (max difference 0.00299)")
+print("passive n=4 modes=[0, 1, 3] gates=[('Rgate', (3,)), ('PassiveChannel', (1,)), ('MZgate', (3, 0)), ('Interferometer', (3, 0, 1)), ('Rgate', (1,)), ('Rgate', (3,)), ('BSgate', (0, 3)), ('MZgate', (1, 0)), ('MZgate', (1, 3)), ('BSgate', (3, 1)), ('BSgate', (1, 3)), ('Rgate', (0,))]: compiled program leaves a different Gaussian state (max difference 0.31)")
 print('REPLAY-VIOLATION')
 sys.exit(1)
